@@ -192,6 +192,7 @@ class World:
         self.ctz = None
         self.clock_positions = set()
         self._shadow = {}
+        self._mock_obj = None
         warnings.simplefilter("ignore")
         self.reset({})
 
@@ -237,6 +238,7 @@ class World:
                 pendulum.week_ends_at(pendulum.WeekDay(val))
         elif reg == "mock_tz":
             tz = None if val is None else self.zone(val)
+            self._mock_obj = tz
             if self._known_repr(reg):
                 _ltz._mock_local_timezone = tz
             else:
@@ -245,6 +247,14 @@ class World:
             calendar.setfirstweekday(val)
         else:
             raise KeyError(reg)
+
+    def set_mock_obj(self, tz):
+        """make this very tzinfo object the mock local zone (zone-identity replay)"""
+        self._mock_obj = tz
+        if self._known_repr("mock_tz"):
+            _ltz._mock_local_timezone = tz
+        else:
+            pendulum.set_local_timezone(tz)
 
     def get_reg(self, reg):
         if reg == "clock":
